@@ -302,6 +302,8 @@ type Flow struct {
 	// constant.
 	phiGen  map[*ssa.BasicBlock][]phiIn
 	edgeSt  map[[2]*ssa.BasicBlock]AtomSet
+	// sumFalse: static atoms holding when a bool result is false
+	sumFalse map[*ssa.Function]map[int]AtomSet
 	// ctxDyn: non-nil facts about the objects handed to a function, holding at every in-region call site, in the callee's names
 	ctxDyn map[*ssa.Function][]Atom
 	// dyn: kind ("err"|"true"|"false") -> function -> result index -> parametric facts
@@ -336,7 +338,7 @@ func NewFlow(p *Prog, rs *RuleSet, roots []*ssa.Function, skip func(*ssa.Functio
 		in: map[*ssa.BasicBlock]AtomSet{}, gen: map[*ssa.BasicBlock][2][]Atom{}, genSum: map[*ssa.BasicBlock][2][]sumRef{},
 		exec: map[ssa.Instruction][]Atom{}, kill: map[ssa.Instruction][]Atom{}, mcache: map[*ssa.Function]*Matcher{},
 		phiGen: map[*ssa.BasicBlock][]phiIn{}, edgeSt: map[[2]*ssa.BasicBlock]AtomSet{},
-		dyn: map[string]map[*ssa.Function]map[int][]Atom{"err": {}, "true": {}, "false": {}}, ctxDyn: map[*ssa.Function][]Atom{}}
+		dyn: map[string]map[*ssa.Function]map[int][]Atom{"err": {}, "true": {}, "false": {}}, ctxDyn: map[*ssa.Function][]Atom{}, sumFalse: map[*ssa.Function]map[int]AtomSet{}}
 	f.Region = p.Reachable(roots, func(fn *ssa.Function) bool {
 		if fn.Pkg != nil && isHarnessPkg(fn.Pkg.Pkg.Path()) {
 			return true
@@ -676,7 +678,10 @@ func (f *Flow) applySums(s AtomSet, refs []sumRef) (AtomSet, bool) {
 			}
 		}
 		if sr.kind == "false" {
-			continue // no static summary for the false outcome
+			if sum, ok := f.sumFalse[sr.fn][sr.idx]; ok && !sum.top {
+				s = s.union(sum)
+			}
+			continue
 		}
 		var sum AtomSet
 		var ok bool
@@ -1311,9 +1316,6 @@ func sameFacts(a, b []Atom) bool {
 
 // summarizeDyn recomputes the parametric summaries of fn; reports a change.
 func (f *Flow) summarizeDyn(fn *ssa.Function) bool {
-	if !f.RS.hasDyn() {
-		return false
-	}
 	changed := false
 	set := func(kind string, i int, facts map[Atom]bool) {
 		l := sortedFacts(facts)
@@ -1347,8 +1349,14 @@ func (f *Flow) summarizeDyn(fn *ssa.Function) bool {
 		case isBool(t):
 			var accT, accF map[Atom]bool
 			firstT, firstF := true, true
+			staticF := topSet()
 			addT := func(s AtomSet) { accT = meetFacts(accT, firstT, paramFacts(fn, f.close(s))); firstT = false }
-			addF := func(s AtomSet) { accF = meetFacts(accF, firstF, paramFacts(fn, f.close(s))); firstF = false }
+			addF := func(s AtomSet) {
+				cs := f.close(s)
+				accF = meetFacts(accF, firstF, paramFacts(fn, cs))
+				firstF = false
+				staticF = staticF.meet(cs.exported())
+			}
 			for _, b := range fn.Blocks {
 				if b == fn.Recover {
 					continue
@@ -1404,6 +1412,13 @@ func (f *Flow) summarizeDyn(fn *ssa.Function) bool {
 			}
 			set("true", i, accT)
 			set("false", i, accF)
+			if f.sumFalse[fn] == nil {
+				f.sumFalse[fn] = map[int]AtomSet{}
+			}
+			if old, ok := f.sumFalse[fn][i]; !ok || !old.equal(staticF) {
+				f.sumFalse[fn][i] = staticF
+				changed = true
+			}
 		}
 	}
 	return changed
